@@ -1055,6 +1055,18 @@ def rand_partial_windows(rng, ref):
     L = ref.L
     pool = sorted(set([k * L / 32 for k in range(0, 33)] + ref.bps + [s["pos"] for s in ref.sites]))
     pts = sorted(rng.sample(pool, rng.randint(2, min(5, len(pool)))))
+    inner = [x for x in ref.bps if 0 < x < L]
+    if inner and rng.random() < 0.6:
+        # the first window starts exactly ON an internal tree breakpoint (edges ending there must not be part of the
+        # first tree) and, half of the time, the last one ends exactly on one
+        a = rng.choice(inner)
+        rest = [x for x in pool if x > a]
+        pts = [a] + sorted(rng.sample(rest, rng.randint(1, min(4, len(rest)))))
+        if rng.random() < 0.5:
+            later = [x for x in inner if x > a]
+            if later:
+                b = rng.choice(later)
+                pts = [x for x in pts if x < b] + [b]
     return pts
 
 
@@ -1205,7 +1217,7 @@ def fam_matrix(cs, rng):
     for rep in range(2):
         mode = "branch" if rng.random() < 0.9 else "site"
         span_normalise = rng.random() < 0.5
-        partial = rng.random() < 0.2
+        partial = rng.random() < 0.4
         windows = rand_partial_windows(rng, ref) if partial else rand_windows(rng, ref)
         k = rng.randint(1, 2)
         W = rand_weights(rng, n, k)
@@ -1240,6 +1252,8 @@ def fam_matrix(cs, rng):
         if windows is None:
             exp, mg = exp[0], mg[0]
         ctx.feature(f"relatedness-vector:centre={int(centre)},nodes={int(use_nodes)},partial={int(partial)}")
+        if partial and windows[0] > 0 and windows[0] in ref.bps:
+            ctx.feature("relatedness-vector:first-window-starts-on-a-breakpoint")
         key = "genetic_relatedness_vector/matrix-vector-definition"
         if span_normalise and got.shape == exp.shape:
             spans = np.array([wl[i + 1] - wl[i] for i in range(nw)]).reshape((-1, 1, 1))
